@@ -115,6 +115,27 @@ theorem dec'_eq (z : ℂ) : dec' z = z := by
   unfold dec'
   rw [e]; exact C14_amplitude z
 
+noncomputable def dec2 (z : ℂ) : ℂ :=
+  ((Real.sqrt (‖z‖ ^ (2 : ℕ)) : ℝ) : ℂ) * Complex.exp (Complex.I * ((Complex.arg z : ℝ) : ℂ))
+noncomputable def dec3 (z : ℂ) : ℂ :=
+  ((Real.sqrt (‖z‖ ^ (2 : ℕ)) : ℝ) : ℂ) * Complex.exp (((Complex.arg z : ℝ) : ℂ) * Complex.I)
+
+theorem dec2_eq (z : ℂ) : dec2 z = z := by
+  unfold dec2
+  rw [mul_comm Complex.I]; exact C14_amplitude z
+
+theorem dec3_eq (z : ℂ) : dec3 z = z := by
+  unfold dec3
+  exact C14_amplitude z
+
+theorem dec2_mid (z0 z1 : ℂ) :
+    dec2 z0 + (((1 / 2 : ℝ) : ℝ) : ℂ) * (dec2 z1 - dec2 z0) = ((1 / 2 : ℝ) : ℂ) * z0 + ((1 / 2 : ℝ) : ℂ) * z1 := by
+  rw [dec2_eq, dec2_eq]; push_cast; ring
+
+theorem dec3_mid (z0 z1 : ℂ) :
+    dec3 z0 + (((1 / 2 : ℝ) : ℝ) : ℂ) * (dec3 z1 - dec3 z0) = ((1 / 2 : ℝ) : ℂ) * z0 + ((1 / 2 : ℝ) : ℂ) * z1 := by
+  rw [dec3_eq, dec3_eq]; push_cast; ring
+
 theorem dec_mid (z0 z1 : ℂ) :
     dec z0 + (((1 / 2 : ℝ) : ℝ) : ℂ) * (dec z1 - dec z0) = ((1 / 2 : ℝ) : ℂ) * z0 + ((1 / 2 : ℝ) : ℂ) * z1 := by
   rw [dec_eq, dec_eq]; push_cast; ring
@@ -135,6 +156,8 @@ theorem C14_src_nodes (a b : Fin 3) :
     first
     | exact ⟨dec_eq _, dec_eq _, dec_eq _, dec_eq _⟩
     | exact ⟨dec'_eq _, dec'_eq _, dec'_eq _, dec'_eq _⟩
+    | exact ⟨dec2_eq _, dec2_eq _, dec2_eq _, dec2_eq _⟩
+    | exact ⟨dec3_eq _, dec3_eq _, dec3_eq _, dec3_eq _⟩
 
 /-- **linear in between**: half way between the two exported points every coefficient is the mean of the exported ones -/
 theorem C14_src_midpoint (a b : Fin 3) :
@@ -144,6 +167,8 @@ theorem C14_src_midpoint (a b : Fin 3) :
     first
     | exact ⟨dec_mid _ _, dec_mid _ _⟩
     | exact ⟨dec'_mid _ _, dec'_mid _ _⟩
+    | exact ⟨dec2_mid _ _, dec2_mid _ _⟩
+    | exact ⟨dec3_mid _ _, dec3_mid _ _⟩
 
 /-- the pins of the re-imported model: the exported names without a mapping; with the mode mapping every pin is kept, `TE`
 dropped from the name and `TM` renamed to `X` - each on its own matrix row (which row is immaterial: the import enumerates the
